@@ -465,7 +465,8 @@ fn exhaustive_three_ops(seed: u64, stride: usize, dedup: bool) {
 fn random_graph(rng: &mut Rng, max_ops: usize) -> (GraphD, bool) {
     let n_src = 1 + rng.usize_below(3);
     let n_const = rng.usize_below(3);
-    let n_ops = rng.usize_below(max_ops + 1);
+    let deep = rng.chance(1, 2);
+    let n_ops = if deep { 2 + rng.usize_below(max_ops) } else { rng.usize_below(max_ops + 1) };
     // abstract nodes before shuffling
     #[derive(Clone)]
     enum A {
@@ -487,9 +488,19 @@ fn random_graph(rng: &mut Rng, max_ops: usize) -> (GraphD, bool) {
     }
     let mut op_idx: Vec<usize> = vec![];
     for _ in 0..n_ops {
-        let n_in = rng.usize_below(4);
+        let n_in = if deep { 1 + rng.usize_below(2) } else { rng.usize_below(4) };
         let mut ins: Vec<Option<usize>> = (0..n_in)
-            .map(|_| if rng.chance(1, 10) { None } else { Some(*rng.pick(&values)) })
+            .map(|_| {
+                if rng.chance(1, 10) {
+                    None
+                } else if deep {
+                    // prefer recently produced values: long dependency chains
+                    let k = values.len().min(3);
+                    Some(values[values.len() - 1 - rng.usize_below(k)])
+                } else {
+                    Some(*rng.pick(&values))
+                }
+            })
             .collect();
         if rng.chance(1, 8) && !ins.is_empty() {
             // repeated input
@@ -622,7 +633,12 @@ fn random_request(rng: &mut Rng, gd: &GraphD) -> Req {
     if !pool.is_empty() {
         let k = 1 + rng.usize_below(3.min(pool.len()));
         for _ in 0..k {
-            let v = *rng.pick(pool);
+            let v = if rng.chance(1, 2) {
+                // highest ids tend to be the deepest values (when the node order was not shuffled)
+                pool[pool.len() - 1 - rng.usize_below(pool.len().min(2))]
+            } else {
+                *rng.pick(pool)
+            };
             if !outs.contains(&v) || rng.chance(1, 30) {
                 outs.push(v);
             }
